@@ -402,6 +402,9 @@ func (h *harness) writer(d *dirState, ep *endpoint) {
 		}
 	}
 	for i, b := range d.bs {
+		if b.urlRewritten != "" {
+			w.Fail("c04/roundtrip request-url", "%s element %d: %s", d.name, i, b.urlRewritten)
+		}
 		if b.err != nil {
 			w.Fail("c04/harness scenario", "%s element %d: %v", d.name, i, b.err)
 			return
